@@ -265,6 +265,34 @@ def trace_validate(tracemod, tracefile, nshards=1, env=None, timeout=1500, specd
     (histories) use NSHARDS=1 and a sequential walk; acceptance is then checked with the
     postcondition `TraceAccepted`.
     """
+    # TLC reads the whole file in every shard: a trace of millions of records is validated in pieces of 150 000 (stateless Trace_* specs only, i.e.
+    # those walked in shards; the record index of a verdict is translated back)
+    CHUNK = 150000
+    if nshards > 1:
+        nlines = sum(1 for _ in open(tracefile))
+        if nlines > CHUNK:
+            total = {"rc": 0, "out": "", "wall": 0.0, "generated": 0, "distinct": 0, "depth": 0, "violated": None, "error": None, "prints": [], "bad_index": None}
+            with open(tracefile) as f:
+                k = 0
+                while True:
+                    part = [l for _, l in zip(range(CHUNK), f)]
+                    if not part:
+                        break
+                    pf = "%s.part%03d" % (tracefile, k)
+                    open(pf, "w").writelines(part)
+                    r = trace_validate(tracemod, pf, nshards=nshards, env=env, timeout=timeout, specdir=specdir, cfg=cfg)
+                    os.remove(pf)
+                    total["wall"] += r["wall"]; total["generated"] += r["generated"]; total["distinct"] += r["distinct"]
+                    total["out"] += r["out"][-4000:]
+                    for key in ("ill_formed", "post_violated"):
+                        if r.get(key):
+                            total[key] = r[key]
+                    if r["error"] or r["violated"] or r["rc"] not in (0, 12, 13):
+                        total["rc"], total["error"], total["violated"] = r["rc"], r["error"], r["violated"]
+                        total["bad_index"] = (r["bad_index"] + k * CHUNK) if r.get("bad_index") and r["bad_index"] > 0 else r.get("bad_index")
+                        return total
+                    k += 1
+            return total
     e = {"TRACE": tracefile, "NSHARDS": str(nshards)}
     if env:
         e.update(env)
@@ -273,7 +301,8 @@ def trace_validate(tracemod, tracefile, nshards=1, env=None, timeout=1500, specd
     # A record on which TLC cannot even evaluate the Level-A relation (an index outside a sequence the record should have filled, a value of the
     # wrong kind, ...) is an observation outside the relation's domain: the real code produced something the property has no reading for.  It is
     # reported like a record that does not conform (with the reason), not as a tooling failure -- the unchanged tree produces no such record.
-    if r["error"] and str(r["error"]).startswith("Evaluating invariant") and not r["violated"]:
+    if (r["error"] and str(r["error"]).startswith("Evaluating invariant") and not r["violated"]
+            and not re.search(r"OutOfMemory|heap space|StackOverflow|GC overhead", r["out"])):
         mm = re.search(r"Evaluating invariant \S+ failed\.\n(.*?)\nError: The behavior", r["out"], re.S)
         r["ill_formed"] = (mm.group(1).strip()[:400] if mm else "not evaluable")
         r["violated"] = "Conforms (not evaluable on this record: %s)" % r["ill_formed"]
